@@ -782,6 +782,8 @@ class PenalizedSystem:
             layers. Negative `padding` is treated as equivalent to 0.
 
         """
+        # validate lam before modifying anything so that a rejected lam leaves the system unchanged
+        lam = _check_lam(lam, allow_zero=False)
         using_pentapy = allow_pentapy and _HAS_PENTAPY and diff_order == 2
         if allow_lower and not using_pentapy:
             lower_only = True
@@ -814,7 +816,7 @@ class PenalizedSystem:
         self.using_pentapy = using_pentapy
         self.reversed = needs_reversed
 
-        self.lam = _check_lam(lam, allow_zero=False)
+        self.lam = lam
         self.penalty = self.lam * _pad_diagonals(self.original_diagonals, padding, self.lower)
         self._update_bands()
 
